@@ -21,9 +21,11 @@ generator and `await asyncio.sleep(0)`s at every yield point so that the virtual
 next; a session that waits for a lock awaits an asyncio.Event that the holder's commit / rollback sets.
 
 Model (what is and is not InnoDB):
-  * record locks only: S / X per (table, primary key); no gap / next-key / insert-intention locks, no phantom
-    protection, no table locks; a request is granted when compatible with the locks GRANTED to other sessions
-    (no FIFO fairness between waiters);
+  * record locks S / X per (table, primary key); gap locks only in the reduced form described at `gap_lock` (the
+    equality conjuncts of a locking SELECT protect matching inserts; two sessions may hold the same gap, an INSERT
+    into it waits - the classic gap / insert-intention deadlock); no range / next-key locks of UPDATE and DELETE
+    scans, no table locks; a request is granted when compatible with the locks GRANTED to other sessions (no FIFO
+    fairness between waiters);
   * DML: X on every row written (also by trigger side effects and ON DUPLICATE KEY UPDATE), X on the rows of the
     updated table(s) and S on the rows of the other tables in the final (ON/WHERE-filtered) bindings of an
     UPDATE, S on the source rows of INSERT .. SELECT and of subqueries / derived tables inside DML unless they
@@ -113,7 +115,8 @@ class TxModel:
         self.to_wake: List[Any] = []
         self.inflight: List[Any] = []      # sessions with a statement in flight
         self.stats = {'yields': 0, 'lock_waits': 0, 'deadlocks': 0, 'locks_s': 0, 'locks_x': 0, 'stmt_retries': 0,
-                      'dirty_column_waits': 0, 'preimage_rows_served': 0, 'beyond_deadlock_bound': 0}
+                      'dirty_column_waits': 0, 'preimage_rows_served': 0, 'beyond_deadlock_bound': 0, 'locks_gap': 0,
+                      'insert_intention_waits': 0}
         self.trace: Optional[list] = None   # set to [] to record (op, event) pairs of one execution
         self.version = 0
         self._store_digest = (None, None)
@@ -121,6 +124,7 @@ class TxModel:
         self._dirty_tables = set(db.store.tables)
         self._reads_cache: Dict[int, bool] = {}
         self._ident: Dict[int, Any] = {}
+        self.gap_values: Dict[tuple, dict] = {}   # gap-lock key -> {column: value}
         self.history: Dict[Any, bytes] = {}  # op -> hash of its python-level DB interaction history (for state hashing)
         self.db_tasks: set = set()          # asyncio tasks suspended at a database yield point / lock wait (see TxLoop)
 
@@ -371,6 +375,86 @@ class TxModel:
         s.held.add(k)
         self.stats['locks_x' if mode == 'X' else 'locks_s'] += 1
 
+    # gap locks (phantom protection of locking reads), reduced to what can be stated without knowing the index used:
+    # a locking read whose WHERE contains `column = constant` conjuncts on a base table protects, under REPEATABLE READ,
+    # at least every index position where a row satisfying its whole search condition could be inserted - whichever index
+    # (or full scan) InnoDB picks.  The model keeps, per locking read and base table, the set of those equality conjuncts
+    # as a 'G' lock: G locks never conflict with each other nor with record locks (two sessions may both lock the same
+    # empty gap); an INSERT of a new row that satisfies all conjuncts of ANOTHER session's G lock has to wait for it
+    # (insert-intention lock).  Rows that satisfy only the equality part but not the rest of the WHERE are blocked too
+    # (InnoDB blocks them whenever the index it uses does not cover the rest): over-blocking only removes schedules or
+    # adds deadlock + retry paths, it never produces a state the real system cannot reach.  Ranges, UPDATE / DELETE
+    # scans and ON-clause conditions take no gap lock here.
+    def gap_lock(self, s, base_tables, where, scope):
+        conj = []
+        stack = [where]
+        while stack:
+            e = stack.pop()
+            if e[0] == 'and':
+                stack.extend((e[1], e[2]))
+            elif e[0] == 'bin' and e[1] == '=':
+                conj.append((e[2], e[3]))
+        if not conj:
+            return
+        preds: Dict[str, dict] = {}
+        for a, b in conj:
+            for colnode, valnode in ((a, b), (b, a)):
+                alias = self._column_of(s, colnode, base_tables, scope)
+                if alias is None or not self._is_constant(s, valnode):
+                    continue
+                try:
+                    v = s.ev(valnode, None)
+                except Exception:  # noqa: BLE001   (not evaluable outside the block: not a constant after all)
+                    continue
+                preds.setdefault(alias, {})[colnode[2]] = v
+                break
+        for alias, d in preds.items():
+            if any(v is None for v in d.values()):
+                continue   # `col = NULL` matches nothing and protects nothing
+            k = ('#gap:' + base_tables[alias], tuple(sorted((c, repr(v)) for c, v in d.items())))
+            held = self.locks.setdefault(k, {})
+            if s not in held:
+                held[s] = 'G'
+                s.held.add(k)
+                self.gap_values[k] = d
+                self.stats['locks_gap'] += 1
+                self.version += 1
+
+    def _column_of(self, s, node, base_tables, scope):
+        if node[0] != 'col':
+            return None
+        q, name = node[1], node[2]
+        if q is not None:
+            return q if q in base_tables and name in scope.meta.get(q, ()) else None
+        if s._lookup_var(name)[0]:
+            return None   # a local variable / parameter shadows the column
+        hits = [a for a, cols in scope.meta.items() if name in cols]
+        return hits[0] if len(hits) == 1 and hits[0] in base_tables else None
+
+    @staticmethod
+    def _is_constant(s, node):
+        t = node[0]
+        if t in ('lit', 'param', 'uvar'):
+            return True
+        return t == 'col' and node[1] is None and s._lookup_var(node[2])[0]
+
+    def insert_intention(self, s, t, new):
+        if not self.gap_values:
+            return
+        prefix = '#gap:' + t.name
+        from vf.minisql.engine import cmp_values
+
+        for k, vals in self.gap_values.items():
+            if k[0] != prefix:
+                continue
+            held = self.locks.get(k)
+            if not held:
+                continue
+            others = [o for o in held if o is not s]
+            if others and all(cmp_values(new.get(c), v) == 0 for c, v in vals.items()):
+                self.stats['insert_intention_waits'] += 1
+                raise LockWait(k, others)
+
     def lock_binding(self, s, base_tables, binding, mode, targets=None):
         """S/X (mode 'U': X on `targets`, S on the others) on every base-table row of one final binding."""
         tables = self.db.store.tables
@@ -395,12 +479,14 @@ class TxModel:
         s.tx_snap = None
         if s.held:
             for k in s.held:
-                self._dirty_tables.add(k[0])   # a rollback may have restored rows of every table this session wrote
+                if k[0][0] != '#':
+                    self._dirty_tables.add(k[0])   # a rollback may have restored rows of every table this session wrote
                 held = self.locks.get(k)
                 if held is not None:
                     held.pop(s, None)
                     if not held:
                         del self.locks[k]
+                        self.gap_values.pop(k, None)
             s.held.clear()
         self.version += 1
         for o, hs in self.waiting.items():
